@@ -167,6 +167,14 @@ def make_pool(rng: PlanRng):
     pool["bs"] = float(sig(rng.uniform(0.1, 1.0)))
     pool["bv0"] = sig(rng.uniform(0.1, 1.0, n_rec))
     pool["bv1"] = sig(rng.uniform(0.1, 1.0, n_rec))
+    # some receptors without a baseline capture: a vector with exact zeros (not all of them)
+    bvz = sig(rng.uniform(0.1, 1.0, n_rec))
+    bvz[rng.integers(0, n_rec - 1)] = 0.0
+    if n_rec > 2 and rng.coin(0.5):
+        bvz[rng.integers(0, n_rec - 1)] = 0.0
+    if not np.any(bvz):
+        bvz[0] = 0.4
+    pool["bvz"] = bvz
     # bounds, intensities
     pool["lbs"] = float(sig(rng.uniform(0.05, 0.3)))
     pool["ubs0"] = float(sig(rng.uniform(1.0, 4.0)))
@@ -673,7 +681,7 @@ def random_mutator(rng: PlanRng, sym: Sym, meta, first=False, allow_reject=False
                                                             p=[1, 3, 3, 1.5])}
 
     def m_base():
-        return {"m": "register_baseline", "baseline": rng.choice(["b0", "bs", "bv0", "bv1"])}
+        return {"m": "register_baseline", "baseline": rng.choice(["b0", "bs", "bv0", "bv1", "bvz"])}
 
     def m_bg():
         bg, dom = rng.choice(["bg0", "bg1"]), None
